@@ -70,6 +70,10 @@ type DBModel struct {
 	pendingMode int // set while a journal_mode switch transaction runs
 }
 
+// SetSaltSeed makes the WAL salts this model generates differ from those of
+// other models (SQLite draws them at random; two nodes never share them).
+func (db *DBModel) SetSaltSeed(seed uint32) { db.nextSalt = seed*2654435761 + 0x1000 }
+
 // NewDBModel returns the model of a database that does not exist yet.
 func NewDBModel(name string, pageSize uint32) *DBModel {
 	return &DBModel{Name: name, PageSize: pageSize, Img: ref.NewImage(pageSize), Mode: ref.ModeRollback, nextSalt: 0x1000}
@@ -325,6 +329,7 @@ type TxResult struct {
 	Segments   int        // journal segments written
 	Image      *ref.Image // the image SQLite sees afterwards (the model)
 	Pages      int        // distinct pages modified
+	Attempt    *ref.Image // the image the transaction was building (set even if it did not commit)
 
 	// WAL mode
 	Frames      int  // frames written
@@ -436,6 +441,14 @@ func (c *Conn) ExecRollbackTx(tx Tx) (res TxResult, err error) {
 			_ = jf.Close()
 		}
 	}
+	if c.HotJournalSeen {
+		// A new transaction cannot start over a hot journal: SQLite first plays it
+		// back under the EXCLUSIVE lock and finalises it.
+		c.HotJournalSeen = false
+		if err = c.playbackHotJournal(); err != nil {
+			return res, err
+		}
+	}
 	if err = c.Lock(LockReserved); err != nil {
 		return res, err
 	}
@@ -450,6 +463,7 @@ func (c *Conn) ExecRollbackTx(tx Tx) (res TxResult, err error) {
 	}
 	newImg, dirty := db.buildImage(db.Img, tx, hdrMode)
 	res.Pages = len(dirty)
+	res.Attempt = newImg
 	noSync := c.Sync == SyncOff
 	nonce := 0x5eed0000 + db.Change
 
@@ -808,4 +822,105 @@ func ReadFileImage(f *mount.File, pageSize uint32) (*ref.Image, error) {
 		return img, fmt.Errorf("database file size %d is not a multiple of the page size %d", size, pageSize)
 	}
 	return img, nil
+}
+
+// playbackHotJournal is pager_playback for a hot journal found by a connection
+// that did not write it: EXCLUSIVE lock, the database truncated to the recorded
+// original size, every record of every synced segment written back, fsync, the
+// journal finalised in the connection's journal mode, back to SHARED.
+func (c *Conn) playbackHotJournal() error {
+	if err := c.LockBusy(LockExclusive); err != nil {
+		return err
+	}
+	defer func() { _ = c.Unlock(LockShared) }()
+	c.op("open journal (hot)")
+	jf, err := c.M.Open(c.Owner, c.journalName())
+	if err != nil {
+		return nil // it vanished: somebody else rolled it back
+	}
+	closed := false
+	defer func() {
+		if !closed {
+			_ = jf.Close()
+		}
+	}()
+	size, _ := jf.Size()
+	b := make([]byte, size)
+	n, _ := jf.ReadAt(b, 0)
+	b = b[:n]
+	ps := int64(c.DB.PageSize)
+	var sector int64
+	first := true
+	for off := int64(0); off+28 <= int64(len(b)); {
+		h := b[off:]
+		if string(h[:8]) != string(journalMagic) {
+			break
+		}
+		nRec := binary.BigEndian.Uint32(h[8:])
+		nonce := binary.BigEndian.Uint32(h[12:])
+		orig := binary.BigEndian.Uint32(h[16:])
+		if first {
+			sector = int64(binary.BigEndian.Uint32(h[20:]))
+			if sector < 32 || sector > 65536 {
+				break
+			}
+			if fsz, e := c.dbf.Size(); e == nil && fsz > int64(orig)*ps {
+				c.op("truncate db %d pages (hot journal)", orig)
+				if e := c.dbf.Truncate(int64(orig) * ps); e != nil {
+					return opErr("truncate db (hot journal)", e)
+				}
+			}
+			first = false
+		}
+		off += sector
+		if nRec == 0xffffffff {
+			nRec = uint32((int64(len(b)) - off) / (ps + 8))
+		}
+		done := false
+		for i := uint32(0); i < nRec; i++ {
+			if off+ps+8 > int64(len(b)) {
+				done = true
+				break
+			}
+			pgno := binary.BigEndian.Uint32(b[off:])
+			data := b[off+4 : off+4+ps]
+			if pgno == 0 || binary.BigEndian.Uint32(b[off+4+ps:]) != journalCksum(nonce, data) {
+				done = true
+				break
+			}
+			c.op("write db page %d (hot journal)", pgno)
+			if e := c.dbf.WriteAt(data, int64(pgno-1)*ps); e != nil {
+				return opErr("hot journal playback write", e)
+			}
+			off += ps + 8
+		}
+		if done {
+			break
+		}
+		off = ((off-1)/sector + 1) * sector
+	}
+	if c.Sync != SyncOff {
+		c.op("fsync db")
+		_ = c.dbf.Sync()
+	}
+	switch c.JournalMode {
+	case Truncate:
+		c.op("truncate journal 0 (hot)")
+		if e := jf.Truncate(0); e != nil {
+			return opErr("truncate journal (hot)", e)
+		}
+	case Persist:
+		c.op("zero journal header (hot)")
+		if e := jf.WriteAt(make([]byte, 28), 0); e != nil {
+			return opErr("zero journal header (hot)", e)
+		}
+	default:
+		closed = true
+		_ = jf.Close()
+		c.op("unlink journal (hot)")
+		if e := c.M.Remove(c.journalName()); e != nil {
+			return opErr("unlink journal (hot)", e)
+		}
+	}
+	return nil
 }
